@@ -1,0 +1,17 @@
+//go:build verif
+
+package osutil
+
+// Contracts for the deductive verifier in /verif (govc); comments only.
+
+/*@
+// The shutdown signals are SIGINT (2), SIGQUIT (3) and SIGTERM (15).
+func isShutdownSignal
+  ensures shutdown_signals: ok <==> (typeis(sig, "syscall.Signal") &&
+    (as(sig, "syscall.Signal") == 2 || as(sig, "syscall.Signal") == 3 || as(sig, "syscall.Signal") == 15))
+
+func IsShutdownSignal
+  logged
+  ensures shutdown_signals: ok <==> (typeis(sig, "syscall.Signal") &&
+    (as(sig, "syscall.Signal") == 2 || as(sig, "syscall.Signal") == 3 || as(sig, "syscall.Signal") == 15))
+@*/
